@@ -423,6 +423,14 @@ def keepreading(R):
              U(bad[0].ast) if bad else ''), func=q, node=(bad[0].ast if bad else None), construct='feed closing test')
 
 
+def _parses(t):
+    try:
+        ast.parse(t, mode='eval')
+        return True
+    except SyntaxError:
+        return False
+
+
 def echobound(R):
     q = WS + '._send_close'
     g = R.cfg(q)
@@ -436,6 +444,21 @@ def echobound(R):
         from .common import len_texts
         a, b = interval_of(R, g.ctx, l, len_texts(R, g, n, data))
         lo, hi = min(lo, a), max(hi, b)
+    # the echo of a server Close goes through close(code, reason) with whatever code _on_close let in (everything outside
+    # Status.invalid_codes): close() / _send_close() refuse nothing on account of the code
+    for fq in (WS + '.close', q):
+        gx = R.cfg(fq)
+        fx = R.func(fq)
+        codep = [p_ for p_ in fx.params if p_ != 'self'][0]
+        for rn in gx.live_nodes():
+            if rn.kind == 'stmt' and isinstance(rn.ast, ast.Raise):
+                gl = [t_ for (t_, p_, _) in guards_of(gx, rn)]
+                dep = [t_ for t_ in gl if codep in {x.id for x in ast.walk(ast.parse(t_, mode='eval')) if isinstance(x, ast.Name)}] \
+                    if all(_parses(t_) for t_ in gl) else gl
+                R.ob('C08.echobound', '%s does not refuse a close code' % fq.split('.')[-1], not dep,
+                     '%s raises `%s` depending on the code (%s): a code the client accepts from the server (1012, 1013, 5000+ ...) '
+                     'cannot be echoed - the reply is never written and the session ends in an error' % (
+                         fq, U(rn.ast.exc)[:50], dep[:2]), func=fx, node=rn.ast, construct='%s raise on the close code' % fq)
     R.ob('C08.echobound', 'Close payload bound is exactly 125', hi == 125,
          'Close frames are sent for payload lengths up to %s: a legal Close with a 123-byte reason must be sendable '
          '(and echoable), nothing longer' % hi, func=q, node=c, construct='_send_close length bound %s' % hi)
